@@ -38,8 +38,13 @@ def run_detailed(ctx, count, seed, prop, modes=(0,), variant="plain"):
     lines = common.corpus(prop, ("DP ",))
     for m in modes:
         lines += common.harness_gen(harness, ["rand", seed + m, count // len(modes), m])
+    # stress streams (checks/stress_streams.py): circuits TRANSLATED to 2^24 + odd .. +-(2^30 - small) in x and / or y, run WITHOUT shift
+    # pass (custom parameter set, shiftMaxNbCells < 2: lemon is never driven there), and designed wide rows with reorderingMaxNbCells 6..8
+    from checks import stress_streams as ss
+    sbig, swide, sinfo = ss.extra_lines(harness, "DP", seed, count // 8, max(4, count // 200), ["rand", seed + 977, count // 4, 0])
+    lines += sbig + swide
     impl, _, _ = common.run_both([harness, "run"], None, lines, chunk=200, timeout=300)
-    res = {"runs": len(lines), "states": 0, "nontrivial": 0, "legal_fail": [], "orient_fail": [], "hpwl_fail": [], "fixed_fail": [],
+    res = {"runs": len(lines), "stress_streams": sinfo, "states": 0, "nontrivial": 0, "legal_fail": [], "orient_fail": [], "hpwl_fail": [], "fixed_fail": [],
            "throw_fail": [], "frame_fail": [], "crash": [], "hpwl_unparsable": [], "hpwl_end_fail": [], "lines": lines, "impl": impl, "outcomes": {}, "callbacks": 0,
            "moved_runs": 0, "polarity_orient_changed_runs": 0, "hpwl_improved_runs": 0}
     linp, lmap = [], []
@@ -158,6 +163,7 @@ def run_detailed(ctx, count, seed, prop, modes=(0,), variant="plain"):
 def summary(res):
     d = {k: res[k] for k in ("runs", "states", "callbacks", "outcomes", "moved_runs", "polarity_orient_changed_runs", "hpwl_improved_runs")}
     d["end_vs_legalized_checked"] = res.get("end_vs_legalized_checked", 0)
+    d["stress_streams"] = res.get("stress_streams", {})
     d["hpwl_values_unparsable"] = len(res["hpwl_unparsable"])
     from checks import dopt_common as do_
     d["net_weights"] = do_.weight_summary([split_dp(l)[1][len(split_dp(l)[0]):] for l in res["lines"]])
